@@ -418,6 +418,7 @@ pub fn run_twin(out: &mut dyn Write, seed: u64, thorough: bool, n_hist: usize) {
             setup(&mut trn, &mut wn, &mut r2);
             rng = r1;
             let len = if thorough { 50 } else { 28 };
+            let mut pending_band_reset: Option<u32> = None;
             for _ in 0..len {
                 let v = ID_VAMM0 + rng.below(wc.vamms.len() as u64) as u32;
                 let t = *rng.pick(&TRADERS);
@@ -452,6 +453,18 @@ pub fn run_twin(out: &mut dyn Write, seed: u64, thorough: bool, n_hist: usize) {
                          Op::Eng { sender: t, funds: pull, m: EMsg::Open { vamm: v, side, margin: amt, lev, limit: 0 } })
                     }
                     7 | 8 => { let ps = with_position(&wc); if ps.is_empty() { continue; } let (v, t) = *rng.pick(&ps);
+                        // a third of the closes are split by a tight price band (partial close): both twins get the band and
+                        // a partial ratio first; the band is lifted again afterwards
+                        if rng.chance(1, 3) {
+                            let plr = *rng.pick(&[u / 10, u / 4, u / 2]);
+                            let tight = *rng.pick(&[u / 1000, u / 200, u / 50]);
+                            for o in [Op::Block { dt: 3, dh: 1 },
+                                      Op::Eng { sender: ID_OWNER, funds: 0, m: EMsg::UpdCfg { owner: None, ifund: None, fpool: None, init: None, maint: None, plr: Some(plr), liqfee: None } },
+                                      Op::Vamm { sender: ID_OWNER, v, m: VMsg::UpdCfg { hold: None, oi: None, toll: None, spread: None, fluct: Some(tight), engine: None, ifund: None, feed: None, twap: None } }] {
+                                trc.step(&mut wc, &o); trn.step(&mut wn, &o);
+                            }
+                            pending_band_reset = Some(v);
+                        }
                         // closing: cw20 pulls the fees from the trader
                         let fees = wc.position(v, t).map(|p| calc_fee(&wc, v, p.notional.u128())).unwrap_or(0);
                         (Op::Eng { sender: t, funds: 0, m: EMsg::Close { vamm: v, limit: 0 } }, Op::Eng { sender: t, funds: fees, m: EMsg::Close { vamm: v, limit: 0 } }) }
@@ -495,6 +508,10 @@ pub fn run_twin(out: &mut dyn Write, seed: u64, thorough: bool, n_hist: usize) {
                     (_, _, _, o) => o,
                 };
                 trn.step(&mut wn, &opn);
+                if let Some(bv) = pending_band_reset.take() {
+                    let o = Op::Vamm { sender: ID_OWNER, v: bv, m: VMsg::UpdCfg { hold: None, oi: None, toll: None, spread: None, fluct: Some(0), engine: None, ifund: None, feed: None, twap: None } };
+                    trc.step(&mut wc, &o); trn.step(&mut wn, &o);
+                }
             }
             trc.end();
             trn.end();
